@@ -112,8 +112,8 @@ func siblingsUnit(only string) Unit {
 // rule-family properties and C13; each owns its check ids).
 func parsedUnit(only string) Unit {
 	return Unit{Name: "schema-text/parser-to-emitted-code", Harness: "pkg/generator:HarnessParsed", Layer: "L3", Only: only,
-		Desc:   "four schema documents given as JSON TEXT in the spellings the parser has to normalise (mixed enums whose members print alike -- 1 and \"1\", true and \"true\", null and \"<nil>\" --, legacy id/definitions, type as string, one-element list and two-element list in both orders, 1.5e2 and 1.0 number spellings, a duplicated required name, draft-4 boolean exclusives, multipleOf, nested arrays/objects, typed enums with a default, a null-typed property, a typed map): the text goes through the REAL Schema/Type/TypeList.UnmarshalJSON (encoding/json on concrete bytes, custom unmarshalers interpreted) into the generator; the emitted code runs on a symbolic document and its verdict is compared, facet by facet, with a reference model built by an INDEPENDENT walk over the generically decoded text",
-		Bounds: "four concrete schema texts; documents with arrays <= 1 element, one extra member per map; regions of recorded findings (array items, nested limits, byte lengths, null for nullable objects) assumed away",
+		Desc:   "five schema documents given as JSON TEXT in the spellings the parser has to normalise (mixed enums whose members print alike -- 1 and \"1\", true and \"true\", null and \"<nil>\" --, legacy id/definitions, type as string, one-element list and two-element list in both orders, 1.5e2 and 1.0 number spellings, a duplicated required name, draft-4 boolean exclusives, multipleOf, nested arrays/objects, typed enums with a default, a null-typed property, a typed map, both definition blocks in one document with one name in both): the text goes through the REAL Schema/Type/TypeList.UnmarshalJSON (encoding/json on concrete bytes, custom unmarshalers interpreted) into the generator; the emitted code runs on a symbolic document and its verdict is compared, facet by facet, with a reference model built by an INDEPENDENT walk over the generically decoded text",
+		Bounds: "five concrete schema texts; documents with arrays <= 1 element, one extra member per map; regions of recorded findings (array items, nested limits, byte lengths, null for nullable objects) assumed away",
 		Quick:  map[string]int{"GRID": 2, "GRIDMAG": 36, "N": 1}, Panic: "inconclusive"}
 }
 
@@ -519,7 +519,7 @@ func init() {
 		Desc:   "the same two schemas (a root with bounds, a two-element type list, a mixed enum with null, a $ref written without extension that --resolve-extension probing resolves, an allOf branch on the same file) as JSON files and as YAML files on the virtual file system, loaded through the default loaders (extension-based parser choice, FromYAMLFile -> goccy decode -> FixMapKeys -> json.Marshal -> the JSON parser): both spellings generate, and generate byte-identical code",
 		Bounds: "one concrete pair of schema sets; goccy/go-yaml itself is a library (its real decoder runs on the concrete bytes, nothing of it is interpreted); YAML-only features (anchors, tags, non-string keys) are outside",
 		Panic:  "inconclusive"})
-	for _, id := range []string{"C01", "C02", "C03", "C04", "C05", "C08", "C13"} {
+	for _, id := range []string{"C01", "C02", "C03", "C04", "C05", "C08", "C10", "C13"} {
 		p := properties[id]
 		p.Units = append(p.Units, parsedUnit(id+"."))
 	}
